@@ -256,8 +256,8 @@ def gen_exhaustive_case(seed, i):
 
 
 def plan(tier, seed, scale=1.0):
-    n = int((4000 if tier == 'quick' else 110000) * scale)
-    nx = int((1200 if tier == 'quick' else 40000) * scale)
+    n = int((4000 if tier == 'quick' else 190000) * scale)
+    nx = int((1200 if tier == 'quick' else 70000) * scale)
     per = 50 if tier == 'quick' else 400
     units = []
     for i in range(0, n, per):
